@@ -25,16 +25,22 @@ import json
 import hashlib
 import os
 import platform
+import re
 from importlib import import_module, metadata as importlib_metadata
 from pathlib import Path
 from typing import Any, Mapping
+
+
+_MEMORY_ADDRESS = re.compile(r" at 0x[0-9a-fA-F]+")
 
 
 def safe_repr(obj: Any, maxlen: int = 200) -> str:
     """Return a truncated ``repr`` string with an ellipsis suffix.
 
     Attempts ``repr(obj)`` and falls back to a placeholder for
-    unrepresentable objects. If the resulting string exceeds ``maxlen``
+    unrepresentable objects. Memory addresses of default object reprs
+    (``<Foo object at 0x7f...>``) are dropped so that the text recorded in a
+    trace is the same on every run. If the resulting string exceeds ``maxlen``
     characters, it is truncated and suffixed with ``"…"``.
     """
 
@@ -42,6 +48,7 @@ def safe_repr(obj: Any, maxlen: int = 200) -> str:
         s = repr(obj)
     except Exception:  # pragma: no cover - defensive
         s = f"<unreprable {type(obj).__name__}>"
+    s = _MEMORY_ADDRESS.sub("", s)
     if len(s) <= maxlen:
         return s
     head = max(0, maxlen - 1)
